@@ -124,11 +124,19 @@ class _FunctoolsProxy(types.ModuleType):
 
 
 FUNCTOOLS = _FunctoolsProxy()
+class _Filters(list):
+    """stands for `warnings.filters`: repository code pops the filter it has just pushed with simplefilter()"""
+
+    def pop(self, *a):
+        return None
+
+
 WARNINGS = types.SimpleNamespace(
     warn=lambda *a, **k: None,
     simplefilter=lambda *a, **k: None,
     filterwarnings=lambda *a, **k: None,
     catch_warnings=warnings.catch_warnings,
+    filters=_Filters(),
 )
 
 
